@@ -1298,10 +1298,18 @@ func dstOfRoute(c *cmd) routeDst {
 	vrf := ""
 	var ipp netip.Prefix
 	l := strings.Split(c.parsed, " ")
+	need := func(n int) {
+		if len(l) < n {
+			errlog.Abort("Incomplete command: %s", c.orig)
+		}
+	}
 	if c.typ.prefix == "ipv6 route" {
 		// ASA: ipv6 route intf ip/len gw
 		// IOS: ipv6 route [vrf NAME] ip/len gw
 		i := slices.IndexFunc(l, func(e string) bool { return strings.Contains(e, "/") })
+		if i == -1 {
+			errlog.Abort("Missing IPv6 prefix in: %s", c.orig)
+		}
 		ipp, _ = netip.ParsePrefix(l[i])
 		if len(l) >= 6 && l[2] == "vrf" {
 			vrf = l[3]
@@ -1310,10 +1318,13 @@ func dstOfRoute(c *cmd) routeDst {
 		// ASA: route intf ip mask gw
 		// IOS: ip route [vrf NAME] ip mask gw
 		i := 2
+		need(3)
 		if l[0] == "ip" && l[2] == "vrf" {
+			need(4)
 			vrf = l[3]
 			i = 4
 		}
+		need(i + 2)
 		ip, err1 := netip.ParseAddr(l[i])
 		mask, err2 := netip.ParseAddr(l[i+1])
 		if err1 == nil && err2 == nil {
